@@ -314,6 +314,15 @@ def main(argv=None):
     rng = random.Random(a.seed)
     gen = lang.Gen(rng, max_depth=3)
     n = a.n or (24 if a.tier == "quick" else 500)
+    # directed: intermediates that nothing reads and whose own dependencies would change the order of the derivatives if the
+    # statements were sorted again without them (remove_unused must not move a slot)
+    import textmodel
+    for text in ("parameters(a=1.0, b=2.0, c=3.0)\nstates(u=1.0, v=2.0, w=3.0)\nprobe = b\ndu_dt = w\ndv_dt = u\ndw_dt = b\n",
+                 "states(x=1, y=2, z=3)\nparameters(p=1, q=2)\nmon1 = z*q\nmon2 = mon1 + y\ndx_dt = y\ndy_dt = z - p\ndz_dt = q - x\n"):
+        c_ = pipeline.Case(drv, text)
+        m_ = textmodel.model_from_items(c_.captured)
+        core.guarded(rep, text, check_model, rep, drv, gen, rng, m_, text, c_, with_jax=True, with_c=True)
+        rep.case(key=text, nontrivial=True)
     for i in range(n):
         big = (i % 6 == 1)
         kw = dict(n_states=rng.choice([11, 12, 13]), n_inters=rng.choice([0, 3])) if big else {}
